@@ -49,6 +49,15 @@ var Descriptions = map[string]string{
 var FormatText = map[string]string{"date": "2006-01-02", "time": "15:04:05", "date-time": "2006-01-02T15:04:05Z",
 	"ipv4": "192.0.2.1", "ipv6": "2001:db8::1"}
 
+// FormatVariantText holds further canonical strings per format, keyed "format:variant" (JV.FmtVariants).
+var FormatVariantText = map[string]string{
+	"date:y0987": "0987-03-01", "date:y0001": "0001-01-01", "date:leap": "2024-02-29",
+	"time:midnight": "00:00:00", "time:lastsec": "23:59:59",
+	"date-time:offset": "2006-01-02T15:04:05+02:00", "date-time:frac": "2006-01-02T15:04:05.5Z", "date-time:y0987": "0987-03-01T00:00:00Z",
+	"ipv4:zero": "0.0.0.0", "ipv4:bcast": "255.255.255.255",
+	"ipv6:loop": "::1", "ipv6:long": "2001:db8:0:1:1:1:1:1",
+}
+
 type M = map[string]any
 
 func str(v any) string { s, _ := v.(string); return s }
@@ -150,8 +159,11 @@ func Doc(v any) (string, error) {
 		return quote(s), nil
 	case "fmt":
 		t, ok := FormatText[str(d["f"])]
+		if v := str(d["v"]); v != "" {
+			t, ok = FormatVariantText[str(d["f"])+":"+v]
+		}
 		if !ok {
-			return "", fmt.Errorf("unknown format %v", d["f"])
+			return "", fmt.Errorf("unknown format %v", d)
 		}
 		return quote(t), nil
 	case "raw": // raw JSON text, used only by hand-written cases
@@ -428,6 +440,12 @@ func fromVal(v any) any {
 		for f, t := range FormatText {
 			if x == t {
 				return M{"t": "fmt", "f": f}
+			}
+		}
+		for fv, t := range FormatVariantText {
+			if x == t {
+				i := strings.LastIndex(fv, ":")
+				return M{"t": "fmt", "f": fv[:i], "v": fv[i+1:]}
 			}
 		}
 		cs := []any{}
